@@ -462,7 +462,7 @@ class C27(Check):
         return cases(tier)
 
     def examples(self, tier):
-        return (10 if tier == "quick" else 300) + 1
+        return (6 if tier == "quick" else 300) + 1
 
     def budget_s(self, tier):
         # safety net only; VERIF_BUDGET_SCALE stretches it on a busy machine (every case spawns processes)
